@@ -72,7 +72,88 @@ def node(e):
     return {"t": "other", "name": name, "kids": [node(k) for k in kids], "nc": ch}
 
 
-def trace(expr):
+_TAGS = {}
+
+
+def _tag(e):
+    """a small integer naming an opaque node's operation: its type and its non-expression operands (NOT its operands'
+    names, so that the node keeps its tag when a pass rewrites its operands)"""
+    from dask.tokenize import tokenize
+    try:
+        key = tokenize(type(e).__name__, *[o for o in e.operands if not isinstance(o, Expr)])
+    except Exception:
+        key = type(e).__name__ + repr([o for o in e.operands if not isinstance(o, Expr)])[:200]
+    return _TAGS.setdefault(key, len(_TAGS))
+
+
+def node_nd(e):
+    """Encode an expression tree for the n-d Lean model (Model/ArrayExprNd.lean). Integer leaves, elementwise
+    neg/abs/square/add/sub/mul/maximum (arrays with broadcasting, array ∘ integer scalar), SliceSlicesIntegers, Rechunk /
+    TasksRechunk, Transpose, Concatenate, FinalizeComputeArray are modelled; every other node becomes `opq` (an opaque
+    function of its operands: tag, reported chunks, operands)."""
+    import operator
+    name = type(e).__name__
+    try:
+        ch = [list(map(int, c)) for c in e.chunks] if name != "FinalizeComputeArray" else None
+    except Exception:
+        ch = None
+    kids = [o for o in e.operands if isinstance(o, Expr)]
+    if name == "FinalizeComputeArray":
+        return {"t": "finalize", "a": node_nd(e.arr), "nc": None}
+    if ch is None:
+        return {"t": "bad", "name": name}
+    if name == "FromArray":
+        arr = np.asarray(e.operand("array"))
+        if arr.dtype.kind in "iu":
+            return {"t": "leaf", "shape": list(arr.shape), "data": arr.ravel().tolist(), "chunks": ch, "nc": ch}
+    elif name in ("Ones", "Zeros", "Full", "Arange") and not kids:
+        arr = np.asarray(da.Array(e).compute())
+        if arr.dtype.kind in "iu":
+            return {"t": "leaf", "shape": list(arr.shape), "data": arr.ravel().tolist(), "chunks": ch, "nc": ch, "creation": name}
+    elif name == "Elemwise":
+        args = list(e.elemwise_args)
+        UN = {operator.neg: "neg", np.negative: "neg", operator.abs: "abs", np.absolute: "abs", np.abs: "abs", np.square: "square"}
+        BIN = {operator.add: "add", np.add: "add", operator.sub: "sub", np.subtract: "sub", operator.mul: "mul",
+               np.multiply: "mul", np.maximum: "max"}
+        try:
+            un, bn = UN.get(e.op), BIN.get(e.op)
+        except TypeError:
+            un = bn = None
+        if e.where is True and e.dtype.kind in "iu":
+            if un and len(args) == 1 and isinstance(args[0], Expr):
+                return {"t": "un", "op": un, "a": node_nd(args[0]), "nc": ch}
+            if bn and len(args) == 2 and all(isinstance(a, Expr) for a in args):
+                b = args[1]
+                if type(b).__name__ == "FromArray" and b.ndim == 0 and args[0].ndim > 0:
+                    sv = np.asarray(b.operand("array"))
+                    if sv.dtype.kind in "iu":
+                        return {"t": "bins", "op": bn, "a": node_nd(args[0]), "s": int(sv), "nc": ch}
+                return {"t": "bin", "op": bn, "a": node_nd(args[0]), "b": node_nd(args[1]), "nc": ch}
+            if bn and len(args) == 2 and isinstance(args[0], Expr) and isinstance(args[1], (int, np.integer)) \
+                    and not isinstance(args[1], bool):
+                return {"t": "bins", "op": bn, "a": node_nd(args[0]), "s": int(args[1]), "nc": ch}
+    elif name == "SliceSlicesIntegers":
+        ix = []
+        for i in e.operand("index"):
+            if isinstance(i, slice):
+                ix.append(["sl"] + [None if v is None else int(v) for v in (i.start, i.stop, i.step)])
+            elif isinstance(i, (int, np.integer)) and int(i) >= 0:
+                ix.append(["int", int(i)])
+            else:
+                ix = None
+                break
+        if ix is not None and len(ix) == e.array.ndim:
+            return {"t": "slice", "ix": ix, "a": node_nd(e.array), "nc": ch}
+    elif name in ("Rechunk", "TasksRechunk"):
+        return {"t": "rechunk", "chunks": ch, "a": node_nd(e.array), "nc": ch}
+    elif name == "Transpose":
+        return {"t": "transpose", "axes": [int(a) for a in e.axes], "a": node_nd(e.array), "nc": ch}
+    elif name == "Concatenate" and int(e.axis) >= 0:
+        return {"t": "concat", "axis": int(e.axis), "kids": [node_nd(a) for a in e.args], "nc": ch}
+    return {"t": "opq", "name": name, "tag": _tag(e), "chunks": ch, "kids": [node_nd(k) for k in kids], "nc": ch}
+
+
+def trace(expr, node=node):
     """All passes of optimize_until(simplified-physical), replicated: simplify*, lower*, simplify*."""
     passes = [("start", node(expr))]
     e = expr
@@ -176,7 +257,7 @@ def handle(req):
         out["lazy_dtype"] = str(x.dtype)
         out["engine"] = type(x).__module__
         if req.get("trace"):
-            passes, final = trace(x.expr.finalize_compute())
+            passes, final = trace(x.expr.finalize_compute(), node_nd if req["trace"] == "nd" else node)
             out["passes"] = passes
         v = x.compute()
         out["value"] = P.enc_value(v)
